@@ -540,7 +540,9 @@ class ProducerWorld(ClientWorld):
             # self-heal: a send issued well after the last fault is acknowledged (one stale attempt, a refresh, done)
             from twisted.python.failure import Failure
             lf = getattr(self, "last_fault_time", None)
-            for s in self.sends:
+            cl = self.cluster
+            healthy = all(ld in cl.brokers and cl.brokers[ld]["up"] for ld in cl.leader.values())
+            for s in self.sends if healthy else []:  # (a partition left on a dead broker is not a healthy cluster)
                 if s.d is None or s.cancelled or self.stop_called_step is not None:
                     continue
                 if (lf is None or s.t_send >= lf + 20.0) and s.fired and isinstance(s.result, Failure) and \
